@@ -18,9 +18,11 @@ import proofs
 from common import hx, unhx
 
 GROUP = "velocity"
-FILES = ["gen/Gen_velocity.v", "gen/Gen_velocity_utils.v", "Model_pathlines.v", "Proofs_velocity.v",
-         "Proofs_pathlines.v", "Model_pathline_session.v", "Proofs_pathline_session.v", "Entry_velocity.v",
-         "Extract_velocity.v"]
+FILES = ["gen/Gen_velocity.v", "gen/Gen_velocity_utils.v", "gen/Gen_pathlines.v", "Model_pathlines.v", "Proofs_velocity.v", "Inst_velocity.v",
+         "Proofs_pathlines.v", "Inst_pathlines.v", "Proofs_pathline_gen.v", "Proofs_pathline_exact.v", "Model_pathline_session.v",
+         "Proofs_pathline_session.v", "Entry_velocity.v", "Extract_velocity.v"]
+GEN_MODULES = ("velocity", "pathlines")
+METHODS = ("RK45", "RK23", "DOP853", "Radau", "BDF", "LSODA")      # ordinals used by the generated request vector
 PROP = "Properties/C18.v"
 FINDING_FILES = {"shear": "Findings/C18_shear.v", "cell": "Findings/C18_cell.v"}
 LETTERS = "XYZ"
@@ -31,6 +33,9 @@ PAIRS = [(h, v) for h in range(3) for v in range(3) if h != v]
 KF_SHEAR = "C18:simple_shear_2d:gradient=2*jacobian"
 KF_CELL = "C18:cell_2d:gradient[v,h]<->gradient[v,v]"
 KF_PATH = "C18:get_pathline:cell_2d(X,Z,1):end=(0.6,0,0.6):max_strain=0.5:ValueError"
+KF_ZERO = "C18:get_pathline:simple_shear_2d(X,Z,1):end=(0.25,0.5,0.5):max_strain=0:timestamps=[0,0]"
+KF_STEPS0 = "C18:get_pathline:simple_shear_2d(X,Z,1):end=(0.25,0.5,0.5):regular_steps=0:timestamps=[t_start]"
+KF_STAGNATION = "C18:get_pathline:cell_2d(X,Z,1):end=(1,0,1):max_strain=0.5:strain=4.5e9"
 BRENTQ_MSG = "f(a) and f(b) must have different signs"
 PATHLINE_TIMEOUT_S = 20      # unchanged tree: <= 0.5 s per pathline
 MAX_EVENT_CALLS = 5000
@@ -66,7 +71,21 @@ def ordl(s):
 
 def model_line_callable(c):
     kind, flow, hl, vl, ps, t, x = c
+    if flow == 1 and len(ps) == 1:
+        ps = list(ps) + [2.0]          # cell_2d's default edge_length (the generated wrapper is traced WITHOUT the argument)
     return common.model_line(kind, [flow, ordl(hl), ordl(vl)], [0.0 if math.isnan(t) else t] + list(x) + list(ps))
+
+
+def ord6(s):
+    """letter ordinals of the generated wrappers: X Y Z x y z = 0..5, anything else 7"""
+    return "XYZxyz".index(s) if len(s) == 1 and s in "XYZxyz" else 7
+
+
+def gen_line_callable(c):
+    """the same case through the wrapper GENERATED from the source (case of the letters preserved)"""
+    kind, flow, hl, vl, ps, t, x = c
+    return common.model_line("gen_wrap", [0 if kind == "velocity" else 1, flow, ord6(hl), ord6(vl)],
+                             [0.0 if math.isnan(t) else t] + list(x) + list(ps))
 
 
 def scale_of(c):
@@ -77,7 +96,10 @@ def scale_of(c):
     if flow == 0:
         return amp
     if flow == 1:
-        return amp * math.pi / abs(ps[1]) if ps[1] else amp
+        d = ps[1] if len(ps) > 1 else 2.0
+        return amp * math.pi / abs(d) if d else amp
+    if ordl(hl) > 2 or ordl(vl) > 2:
+        return amp
     h, v = x[ordl(hl)], x[ordl(vl)]
     r = math.hypot(h, v)
     return amp / r if r else amp
@@ -121,6 +143,17 @@ def gen_kernel_cases(rng, tier):
         for hl, vl in (("X", "X"), ("Y", "Y"), ("Z", "Z"), ("x", "X")):
             cases.append(("velocity", flow, hl, vl, ps, 0.0, [0.1, 0.2, -0.3]))
     cases.append(("velocity", 1, "X", "Z", [1.0, -2.0], 0.0, [0.1, 0.2, -0.3]))
+    cases.append(("gradient", 1, "X", "X", [1.0, -2.0], 0.0, [0.1, 0.2, -0.3]))     # both checks fail: which one is reported does not matter
+    # letters that are no axis, mixed case, cell_2d with edge_length left at its default (2.0)
+    for hl, vl in (("Q", "Z"), ("X", "q"), ("x", "Z"), ("Z", "y"), ("y", "x")):
+        for flow in range(3):
+            for kind in ("velocity", "gradient"):
+                cases.append((kind, flow, hl, vl, [0.75, 2.0] if flow == 1 else [0.75], 0.0, [0.3, -0.2, -0.4]))
+    for (h, v) in PAIRS:
+        for kind in ("velocity", "gradient"):
+            x = rng.uniform(-1, 1, 3)
+            cases.append((kind, 1, LETTERS[h], LETTERS[v].lower(), [float(rng.uniform(0.1, 3))], float("nan"), [float(a) for a in x]))
+    cases.append(("velocity", 1, "X", "Z", [1.0], 0.0, [1.5, 0.0, 0.0]))               # outside the default cell
     for x in ([1.5, 0.0, 0.0], [0.0, 0.0, -1.0000001], [-1.0000001, 0.0, 0.3], [1.0, 5.0, -1.0]):
         for kind in ("velocity", "gradient"):
             cases.append((kind, 1, "X", "Z", [1.0, 2.0], 0.0, x))
@@ -133,10 +166,15 @@ def gen_kernel_cases(rng, tier):
 def compare_kernels(chk, cases, rtol):
     lines = [model_line_callable(c) for c in cases]
     mres = common.run_model(lines, group=GROUP)
+    gres = common.run_model([gen_line_callable(c) for c in cases], group=GROUP)
     bad = []
     hist = chk.cov.setdefault("histogram", {})
-    for c, m in zip(cases, mres):
+    for c, m, g in zip(cases, mres, gres):
         r = impl_callable(c)
+        # hand-written wrapper model vs wrapper generated from the source: proved equal (Inst_velocity.v); any
+        # difference here is a defect of the extraction / driver / harness
+        if g[0] != m[0] or (g[1] != m[1] and not (g[0] == "OK" and common.vec_close(g[1], m[1], rtol=0.0, atol=0.0)[0])):
+            bad.append((c, f"generated wrapper {g[0]} {g[1] if g[0] == 'ERR' else g[1][:9]} vs wrapper model {m[0]} {m[1] if m[0] == 'ERR' else m[1][:9]}"))
         key = f"{FLOWS[c[1]]}:{c[0]}:{c[2].upper()}{c[3].upper()}"
         hist[key] = hist.get(key, 0) + 1
         flat = r[1] if r[0] == "OK" else []
@@ -158,6 +196,194 @@ def compare_kernels(chk, cases, rtol):
             a = flat[j] if 0 <= j < len(flat) else None
             b = m[1][j] if 0 <= j < len(m[1]) else None
             bad.append((c, f"{FLOWS[c[1]]} {c[0]} entry {j}: implementation {a!r} vs model {b!r}"))
+    return bad
+
+
+# ---- representations of the position argument (added after seeded change C18d)
+# Every kernel case above hands the callables a float64 ndarray (impl_callable converts), the failing-input search took
+# finite differences with float offsets: a change that makes the OUTPUT depend on the dtype / container of the position
+# (C18d: `np.zeros_like(x)` in _corner_2d truncates the velocity for integer positions -- the style of the module's
+# own doctests) was invisible to both.  The callables are now also applied to the SAME point in other representations.
+REPRESENTATIONS = ("int64", "int32", "int16", "float32", "float16", "list_float", "list_int", "tuple_float", "tuple_int",
+                   "noncontiguous", "readonly", "zero_d_elements", "numpy_scalars", "fortran_column")
+INT_REPRESENTATIONS = ("int64", "int32", "int16", "list_int", "tuple_int")
+MAY_BE_REJECTED = ("float16",)          # numba has no float16 on the CPU: both callables raise NotImplementedError
+TIME_REPRESENTATIONS = ("nan", "zero_d", "int", "float32")
+
+
+def present(x, rep):
+    """the point x (integer-valued floats) in representation `rep`"""
+    xf = np.array([float(a) for a in x])
+    if rep in ("int64", "int32", "int16", "float32", "float16"):
+        return xf.astype(rep)
+    if rep == "list_float":
+        return [float(a) for a in xf]
+    if rep == "list_int":
+        return [int(a) for a in xf]
+    if rep == "tuple_float":
+        return tuple(float(a) for a in xf)
+    if rep == "tuple_int":
+        return tuple(int(a) for a in xf)
+    if rep == "noncontiguous":
+        big = np.full((3, 2), 7.5)
+        big[:, 0] = xf
+        return big[:, 0]
+    if rep == "fortran_column":
+        return np.asfortranarray(np.stack([xf + 1.0, xf], axis=1))[:, 1]
+    if rep == "readonly":
+        xf.setflags(write=False)
+        return xf
+    if rep == "zero_d_elements":
+        return [np.array(float(a)) for a in xf]
+    if rep == "numpy_scalars":
+        return [np.float64(a) for a in xf]
+    return xf
+
+
+def present_time(rep):
+    return {"nan": float("nan"), "zero_d": np.array(0.5), "int": 0, "float32": np.float32(1.5)}[rep]
+
+
+def rep_rtol(rep):
+    return 1e-5 if rep == "float32" else 1e-12        # float32 positions are computed with in float32
+
+
+def lattice_points(flow, h, v, rng, n):
+    """integer-valued points inside the domain of the flow, far enough from the singular point / with a cell large enough
+    for central differences over lattice neighbours (spacing 1) to approximate the Jacobian to 1e-4; params"""
+    pts = []
+    o = 3 - h - v
+    for k in range(n):
+        x = np.zeros(3)
+        if flow == 0:
+            ps = [float(rng.choice([0.75, -2.0, 1e-4]))]
+            x[:] = rng.integers(-50, 50, 3)
+        elif flow == 1:
+            ps = [float(rng.choice([0.75, -2.0])), 4000.0]
+            x[:] = rng.integers(-1900, 1900, 3)
+        else:
+            ps = [float(rng.choice([1.0, 3.5, -2.0]))]
+            fixed = [(300, -400), (1200, -50), (-700, -900), (25, -2000), (0, -150), (400, 0)]
+            x[h], x[v] = fixed[k % len(fixed)] if k < len(fixed) else (int(rng.integers(-2000, 2000)), -int(rng.integers(100, 2000)))
+            x[o] = int(rng.integers(-5, 5))
+        pts.append((ps, x))
+    return pts
+
+
+def oracle_representation(flow, hl, vl, ps, x, rep, trep="nan"):
+    """The property on the public API for ONE representation of one (integer-valued) point: the callables must not depend on
+    how the point is represented, and -- integer representations -- the gradient callable must be the Jacobian of the velocity
+    callable formed from lattice neighbours IN THAT REPRESENTATION.  Returns failure strings (known findings filtered)."""
+    fails = []
+    u, L = make_flow(flow, hl, vl, ps)
+    t = present_time(trep)
+    xf = np.array([float(a) for a in np.asarray(present(x, rep) if rep != "zero_d_elements" else x, dtype=float)])
+    try:
+        ref_u, ref_L = np.asarray(u(np.nan, xf), dtype=float), np.asarray(L(np.nan, xf), dtype=float)
+    except ValueError:
+        return fails                       # outside the domain of the flow
+    out = {}
+    for name, f in (("velocity", u), ("gradient", L)):
+        try:
+            with warnings.catch_warnings():
+                warnings.simplefilter("ignore")
+                out[name] = ("OK", np.asarray(f(t, present(x, rep))))
+        except Exception as e:  # noqa: BLE001
+            out[name] = ("ERR", f"{type(e).__name__}: {str(e)[:80]}")
+    if out["velocity"][0] == "ERR" or out["gradient"][0] == "ERR":
+        if rep in MAY_BE_REJECTED and out["velocity"][0] == out["gradient"][0] == "ERR":
+            return fails
+        return [f"{FLOWS[flow]}({hl!r}, {vl!r}, *{ps}): position {list(x)} as {rep}: velocity callable -> {out['velocity'][1] if out['velocity'][0] == 'ERR' else 'returns'}, "
+                f"gradient callable -> {out['gradient'][1] if out['gradient'][0] == 'ERR' else 'returns'}"]
+    scale_u = max(float(np.abs(ref_u).max()), abs(ps[0]) * 1e-12)
+    scale_L = max(float(np.abs(ref_L).max()), abs(ps[0]) * 1e-300)
+    for name, ref, sc in (("velocity", ref_u, scale_u), ("gradient", ref_L, scale_L)):
+        got = out[name][1]
+        if got.shape != ref.shape or not np.all(np.abs(got.astype(float) - ref) <= rep_rtol(rep) * sc):
+            fails.append(f"{FLOWS[flow]}({hl!r}, {vl!r}, *{ps}): the {name} callable depends on the representation of the point: "
+                         f"{list(x)} as {rep} (time as {trep}) -> {got.reshape(-1).tolist()[:9]} (dtype {got.dtype}), as float64 -> {ref.reshape(-1).tolist()[:9]}")
+    if rep in INT_REPRESENTATIONS and not fails:
+        J = np.zeros((3, 3))
+        try:
+            for k in range(3):
+                e = np.zeros(3); e[k] = 1.0
+                J[:, k] = (np.asarray(u(t, present(x + e, rep)), dtype=float) - np.asarray(u(t, present(x - e, rep)), dtype=float)) / 2.0
+        except ValueError:
+            return fails
+        # the natural size of the gradient at this point (U / r, U pi / d, rate): on the axis h = 0 of the corner flow every
+        # entry of L is exactly 0 and the lattice quotient is its own truncation error (false alarm of the first version)
+        sc = max(float(np.abs(ref_L).max()), float(np.abs(J).max()), scale_of(("gradient", flow, hl, vl, ps, 0.0, [float(a) for a in x])))
+        if np.abs(J - ref_L).max() > 1e-3 * sc:
+            k, m = np.unravel_index(np.abs(J - ref_L).argmax(), (3, 3))
+            msg = (f"{FLOWS[flow]}({hl!r}, {vl!r}, *{ps}): gradient[{k},{m}] = {ref_L[k, m]!r} but the Jacobian of the velocity callable from "
+                   f"lattice neighbours of {list(x)} ({rep}) has d u_{k} / d x_{m} = {J[k, m]!r}")
+            if not explained_by_finding(flow, hl, vl, ps, xf, msg):
+                fails.append(msg)
+    return fails
+
+
+def gen_representation_cases(rng, tier):
+    """(flow, hl, vl, ps, x, rep, trep): every representation for every flow on two axis pairs; all six axis pairs and the
+    time representations with int64 positions"""
+    cases = []
+    npts = 2 if tier == "quick" else 12
+    for flow in range(3):
+        for (h, v) in (PAIRS if tier != "quick" else [PAIRS[1], PAIRS[int(rng.integers(6))]]):
+            for (ps, x) in lattice_points(flow, h, v, rng, npts):
+                for rep in REPRESENTATIONS:
+                    cases.append((flow, LETTERS[h], LETTERS[v], ps, x, rep, "nan"))
+        for (h, v) in PAIRS:
+            for (ps, x) in lattice_points(flow, h, v, rng, 6 if flow == 2 else 1):
+                cases.append((flow, LETTERS[h], LETTERS[v], ps, x, "int64", "nan"))
+        (ps, x) = lattice_points(flow, 0, 2, rng, 1)[0]
+        for trep in TIME_REPRESENTATIONS[1:]:
+            cases.append((flow, "X", "Z", ps, x, "int64", trep))
+            cases.append((flow, "X", "Z", ps, x, "float64", trep))
+    return cases
+
+
+def compare_representations(chk, cases):
+    """property oracle + correspondence (generated wrapper at the float64 value of the point vs the implementation applied
+    to the representation).  Returns [(case, message)]."""
+    bad = []
+    hist = chk.cov.setdefault("histogram", {})
+    lines, idx = [], []
+    for c in cases:
+        flow, hl, vl, ps, x, rep, trep = c
+        hist["representation:" + rep] = hist.get("representation:" + rep, 0) + 1
+        if trep != "nan":
+            hist["time representation:" + trep] = hist.get("time representation:" + trep, 0) + 1
+        chk.note_case(("representation", flow, hl, vl, tuple(ps), tuple(x), rep, trep), nontrivial=True)
+        for f in oracle_representation(flow, hl, vl, ps, x, rep, trep):
+            bad.append((c, f))
+        for kind in ("velocity", "gradient"):
+            lines.append(gen_line_callable((kind, flow, hl, vl, ps, 0.0, [float(a) for a in x])))
+            idx.append((c, kind))
+    mres = common.run_model(lines, group=GROUP)
+    rejected = 0
+    for (c, kind), m in zip(idx, mres):
+        flow, hl, vl, ps, x, rep, trep = c
+        u, L = make_flow(flow, hl, vl, ps)
+        try:
+            with warnings.catch_warnings():
+                warnings.simplefilter("ignore")
+                got = ("OK", [float(a) for a in np.asarray((u if kind == "velocity" else L)(present_time(trep), present(x, rep)), dtype=float).reshape(-1)])
+        except Exception as e:  # noqa: BLE001
+            got = ("ERR", common.exc_code(e))
+        if got[0] == "ERR" and rep in MAY_BE_REJECTED:
+            rejected += 1
+            continue
+        if got[0] != m[0] or (got[0] == "ERR" and got[1] != m[1]):
+            bad.append((c, f"{FLOWS[flow]} {kind} at {list(x)} as {rep}: implementation {got[0]} {got[1] if got[0] == 'ERR' else got[1][:9]} vs "
+                           f"generated wrapper {m[0]} {m[1] if m[0] == 'ERR' else m[1][:9]}"))
+        elif got[0] == "OK":
+            sc = scale_of((kind, flow, hl, vl, ps, 0.0, [float(a) for a in x]))
+            okc, j = common.vec_close(got[1], m[1], rtol=max(1e-10, rep_rtol(rep)), atol=max(1e-13, rep_rtol(rep)) * sc)
+            if not okc:
+                bad.append((c, f"{FLOWS[flow]} {kind} at {list(x)} as {rep}, entry {j}: implementation {got[1][j] if 0 <= j < len(got[1]) else None!r} vs "
+                               f"generated wrapper {m[1][j] if 0 <= j < len(m[1]) else None!r}"))
+    chk.cov["representations"] = {"cases": len(cases), "kinds": list(REPRESENTATIONS), "time_kinds": list(TIME_REPRESENTATIONS),
+                                  "rejected_by_both_callables": rejected // 2, "may_be_rejected": list(MAY_BE_REJECTED)}
     return bad
 
 
@@ -214,6 +440,9 @@ def compare_inside(chk, rng, tier):
     cases.append(("is_inside", np.zeros(3), -np.ones(3), np.ones(2), 2))     # size mismatch -> AssertionError
     lines.append(common.model_line("is_inside", [3, 2], [0, 0, 0, -1, -1, -1, 1, 1]))
     mres = common.run_model(lines, group=GROUP)
+    # the same cases through the code GENERATED from pathlines.py (sizes 3, 3, 3 only)
+    glines = [common.model_line("gen_is_inside", [], list(pt) + list(mn) + list(mx)) for (_, pt, mn, mx, n2) in cases if n2 == 3]
+    gres = iter(common.run_model(glines, group=GROUP))
     for (_, pt, mn, mx, n2), m in zip(cases, mres):
         try:
             r = ("OK", [1.0 if P._is_inside(pt, mn, mx) else 0.0])
@@ -222,6 +451,10 @@ def compare_inside(chk, rng, tier):
         chk.note_case(("is_inside", pt.tobytes(), mn.tobytes(), mx.tobytes()), nontrivial=True)
         if (r[0], r[1]) != (m[0], m[1]):
             bad.append((("is_inside", pt, mn, mx), f"_is_inside: implementation {r} vs model {m}"))
+        if n2 == 3:
+            g = next(gres)
+            if (r[0], r[1]) != (g[0], g[1]):
+                bad.append((("is_inside", pt, mn, mx), f"_is_inside: implementation {r} vs generated code {g}"))
     # _ivp_func with the cell flow
     lines, cases = [], []
     for k in range(n // 2):
@@ -233,16 +466,26 @@ def compare_inside(chk, rng, tier):
         cases.append((h, v, amp, d, pt, mn, mx))
         lines.append(common.model_line("ivp_func", [1, h, v], list(pt) + list(mn) + list(mx) + [amp, d]))
     mres = common.run_model(lines, group=GROUP)
-    for (h, v, amp, d, pt, mn, mx), m in zip(cases, mres):
+    gfun = common.run_model([ln.replace("ivp_func ", "gen_ivp 0 ", 1) for ln in lines], group=GROUP)
+    gjac = common.run_model([ln.replace("ivp_func ", "gen_ivp 1 ", 1) for ln in lines], group=GROUP)
+    for (h, v, amp, d, pt, mn, mx), m, gf, gj in zip(cases, mres, gfun, gjac):
         u, L = make_flow(1, LETTERS[h], LETTERS[v], [amp, d])
         try:
             r = ("OK", [float(a) for a in P._ivp_func(0.0, pt, u, L, mn, mx)])
         except Exception as e:  # noqa: BLE001
             r = ("ERR", common.exc_code(e))
+        try:
+            rj = ("OK", [float(a) for a in np.asarray(P._ivp_jac(0.0, pt, u, L, mn, mx)).reshape(-1)])
+        except Exception as e:  # noqa: BLE001
+            rj = ("ERR", common.exc_code(e))
         chk.note_case(("ivp_func", pt.tobytes(), d, amp, h, v), nontrivial=r[0] == "OK" and any(r[1]))
-        ok = r[0] == m[0] and (r[1] == m[1] if r[0] == "ERR" else common.vec_close(r[1], m[1], rtol=1e-11, atol=1e-13 * amp)[0])
-        if not ok:
-            bad.append((("ivp_func", pt, mn, mx), f"_ivp_func: implementation {r} vs model {m}"))
+        chk.note_case(("ivp_jac", pt.tobytes(), d, amp, h, v), nontrivial=rj[0] == "OK" and any(rj[1]))
+        for what, rr, mm in (("_ivp_func: implementation vs model", r, m), ("_ivp_func: implementation vs generated code", r, gf),
+                             ("_ivp_jac: implementation vs generated code", rj, gj)):
+            ok = rr[0] == mm[0] and (rr[1] == mm[1] if rr[0] == "ERR" else
+                                     common.vec_close(rr[1], mm[1], rtol=1e-11, atol=1e-13 * amp * max(1.0, math.pi / d))[0])
+            if not ok:
+                bad.append((("ivp_func", pt, mn, mx), f"{what}: {rr} vs {mm}"))
     return bad
 
 
@@ -275,6 +518,13 @@ def pathline_specs(rng, tier):
             p[h], p[v], p[o] = rng.uniform(0.05, 1.9), rng.uniform(-1.9, -0.05), rng.uniform(-0.9, 0.9)
         ms = float(rng.choice([0.25, 0.5, 1.0, 2.0, 5.0]))
         steps = None if k % 4 else int(rng.choice([1, 2, 10, 50]))
+        if tier != "quick" and k % 5 == 4:
+            # thorough tier: every fifth end point is moved ONTO the boundary of the box -- one, two or three coordinates
+            # snapped to a face (a face, an edge, a corner), lower or upper side at random
+            for ax in rng.permutation(3)[:int(rng.integers(1, 4))]:
+                p[ax] = mn[ax] if rng.random() < 0.5 else mx[ax]
+            if flow == 2 and abs(p[h]) < 1e-9 and abs(p[v]) < 1e-9:
+                p[v] = mn[v]          # not the singular corner itself (outside the domain of the flow)
         specs.append((flow, LETTERS[h], LETTERS[v], ps, mn, mx, p, ms, steps))
     return specs
 
@@ -303,11 +553,23 @@ def run_pathline(spec, callables=None, raw_args=None, module=None):
     flow, hl, vl, ps, mn, mx, p, ms, steps = spec
     u, L = callables if callables is not None else make_flow(flow, hl, vl, ps)
     a_p, a_mn, a_mx, a_ms = raw_args if raw_args is not None else (p.copy(), mn.copy(), mx.copy(), ms)
-    rec = {"calls": [], "t": None, "status": None, "exc": None}
+    rec = {"calls": [], "t": None, "status": None, "exc": None, "request": None}
     real = P.si.solve_ivp
 
     def recording(fun, t_span, y0, **kw):
         ev = kw["events"][0]
+        # what get_pathline asks solve_ivp for, in the layout of the generated request vector (k_request_n3)
+        try:
+            other = set(kw) - {"method", "events", "args", "dense_output", "jac", "atol", "rtol", "first_step", "max_step"}
+            a = kw.get("args", ())
+            rec["request"] = ([float(t_span[0]), float(t_span[1]), float(len(t_span))] + [float(v) for v in np.asarray(y0, dtype=float)]
+                              + [float(kw.get("atol", 1e-6)), float(kw.get("rtol", 1e-3)), float(METHODS.index(kw.get("method", "RK45"))),
+                                 float(len(kw["events"])), float(bool(getattr(ev, "terminal", False))), float(getattr(ev, "direction", 0)),
+                                 float(kw.get("dense_output", False) is True), float(fun is P._ivp_func), float(kw.get("jac") is P._ivp_jac),
+                                 float(isinstance(a, tuple) and len(a) == 4 and a[0] is u and a[1] is L and a[2] is a_mn and a[3] is a_mx),
+                                 float(kw.get("first_step", 0.0)), float(kw.get("max_step", 0.0)), float(len(other))])
+        except Exception as e:  # noqa: BLE001
+            rec["request"] = f"{type(e).__name__}: {e}"
 
         def ev2(t, y, *a):
             val = ev(t, y, *a)
@@ -358,13 +620,17 @@ def check_pathline(chk, spec, rec, stats):
     # ---- the stateful event: replay the recorded call history through the extracted model
     calls = rec["calls"]
     have_model = os.path.exists(os.path.join(common.EXTRACT, GROUP, "driver"))     # absent only in a bare replay
+    # `--replay` does not rebuild: the code GENERATED from the source inside the driver may come from another tree than
+    # the one being replayed, so a replay judges with the property clauses and the hand-written model only
+    use_generated = have_model and not os.environ.get("C18_REPLAY_MODE")
     if calls and have_model:
         xs = [ms] + list(mn) + list(mx) + list(ps)
         for (t, y, _) in calls:
             inside = bool(np.all(y >= mn) and np.all(y <= mx))
             e = rate_at(L, y) if inside else 0.0
             xs += [t] + list(y) + [e]
-        m = common.run_model([common.model_line("event", [flow, ordl(hl), ordl(vl), len(ps), len(calls)], xs)], group=GROUP)[0]
+        m, g = common.run_model([common.model_line(e, [flow, ordl(hl), ordl(vl), len(ps), len(calls)], xs) for e in ("event", "gen_event")],
+                                group=GROUP)
         stats["event_calls"] += len(calls)
         if m[0] != "OK":
             fails.append(f"terminal event: model raises {m[1]} on the recorded call history")
@@ -372,6 +638,22 @@ def check_pathline(chk, spec, rec, stats):
             okc, j = common.vec_close([c[2] for c in calls], m[1], rtol=1e-9, atol=1e-12 * ms)
             if not okc:
                 fails.append(f"terminal event call {j}: implementation returned {calls[j][2]!r}, model {m[1][j]!r}")
+        # ... and through the closure GENERATED from the source (state threaded from call to call, initial
+        # state read off the generated request)
+        if not use_generated:
+            pass
+        elif g[0] != "OK":
+            fails.append(f"terminal event: generated closure raises {g[1]} on the recorded call history")
+        else:
+            okc, j = common.vec_close([c[2] for c in calls], g[1][:-2], rtol=1e-9, atol=1e-12 * ms)
+            if not okc:
+                fails.append(f"terminal event call {j}: implementation returned {calls[j][2]!r}, generated closure {g[1][j]!r}")
+    if rec.get("request") is not None and use_generated:
+        g = common.run_model([common.model_line("gen_request", [], list(p) + list(mn) + list(mx) + [ms])], group=GROUP)[0]
+        stats["requests_compared"] = stats.get("requests_compared", 0) + 1
+        rq = rec["request"]
+        if isinstance(rq, str) or g[0] != "OK" or not common.vec_close(rq, g[1][:len(rq)], rtol=0.0, atol=0.0)[0]:
+            fails.append(f"solve_ivp was called with {rq}, the request generated from the source is {g[1] if g[0] == 'OK' else g}")
         # how often is the event evaluated at non-monotone times (the root finder jumps)?
         tt = [c[0] for c in calls]
         stats["event_forward_jumps"] += sum(1 for a, b in zip(tt, tt[1:]) if b > a)
@@ -388,6 +670,11 @@ def check_pathline(chk, spec, rec, stats):
                      "this call's arguments (state carried over from an earlier call)")
         t = np.array([0.0, float(ts[0])]) if len(ts) else np.array([0.0, -1.0])
     else:
+        if ms <= 1e-290 and len(t) == 2 and t[0] == 0.0 and t[1] == 0.0 and np.all(ts == 0.0):
+            # KNOWN FINDING (KF_ZERO): a strain limit of 0 (or one that underflows) makes the terminal event 0 at t = 0;
+            # solve_ivp then returns t = [0, 0] and get_pathline hands the duplicate on
+            rec["known"] = rec.get("known", []) + [KF_ZERO]
+            return fails
         if not (t[0] == 0.0 and np.all(np.diff(t) < 0)):
             fails.append(f"oracle hypothesis violated: solve_ivp times do not start at 0 and strictly decrease: {t[:4]}")
         m = ("OK", list(ts)) if not have_model else common.run_model([common.model_line("timestamps", [0 if steps is None else 1, steps or 0], list(t))], group=GROUP)[0]
@@ -395,9 +682,17 @@ def check_pathline(chk, spec, rec, stats):
             fails.append(f"time stamps: implementation {list(ts)[:4]}... vs model {m[1][:4] if m[0] == 'OK' else m}")
     # ---- runtime-checked clauses (not provable: they are about solve_ivp's trajectory)
     f = rec["f"]
+    if len(ts) == 0:
+        fails.append("get_pathline returned no time stamps at all")
+        return fails
     size = float(np.max(mx - mn))
+    if size == 0.0:        # a box that is a single point: lengths are measured against the coordinates themselves
+        size = max(float(np.max(np.abs(mx))), 1e-300)
     if not (len(ts) >= 2 and np.all(np.diff(ts) > 0) and ts[-1] == 0.0):
-        if len(t) >= 2:
+        if steps == 0 and len(ts) == 1 and len(t) >= 2 and ts[0] == t[-1]:
+            # KNOWN FINDING (KF_STEPS0): regular_steps = 0 returns the single EARLIEST time (np.linspace(a, b, 1) = [a])
+            rec["known"] = rec.get("known", []) + [KF_STEPS0]
+        elif len(t) >= 2:
             fails.append(f"time stamps are not strictly increasing up to 0: {list(ts)[:5]}")
     end = np.asarray(f(0.0))
     d_end = float(np.abs(end - p).max())
@@ -423,10 +718,19 @@ def check_pathline(chk, spec, rec, stats):
                 except Exception:  # noqa: BLE001
                     rates.append(0.0)
         strain = float(np.sum(rates) * T / 400)
-        stats["strain_ratio_max"] = max(stats["strain_ratio_max"], strain / ms)
-        stats["strain_ratios"].append(round(strain / ms, 4))
-        if strain > 1.25 * ms * (1 + 1e-3):
-            fails.append(f"accumulated strain {strain:.6g} exceeds 1.25 x max_strain = {1.25 * ms:.6g}")
+        # a strain limit of 0: the pathline must be (numerically) of zero length -- measured against the strain one solver
+        # step accumulates (first step of LSODA <= 1e-4 of the natural time 1/rate)
+        ratio = strain / ms if ms > 0 else (0.0 if strain <= 1e-3 else float("inf"))
+        if stagnation_corner(spec, rec) and strain > 1.25 * ms * (1 + 1e-3):
+            # KNOWN FINDING (KF_STAGNATION): end point at a corner of the Stokes cell (a stagnation point ON the box): the
+            # velocity is ~1e-16 U, LSODA takes one step of ~1e9 time units, the point drifts out of the box by ~1e-6, the
+            # event returns exactly 0 there ("outside") and the root is located at the far end of the step
+            rec["known"] = rec.get("known", []) + [KF_STAGNATION]
+        else:
+            stats["strain_ratio_max"] = max(stats["strain_ratio_max"], ratio)
+            stats["strain_ratios"].append(round(ratio, 4))
+            if ratio > 1.25 * (1 + 1e-3):
+                fails.append(f"accumulated strain {strain:.6g} exceeds 1.25 x max_strain = {1.25 * ms:.6g}")
         # dx/dt = u(x) at interior sample times (central differences of the interpolant)
         worst = 0.0
         hstep = 1e-5 * T
@@ -441,11 +745,87 @@ def check_pathline(chk, spec, rec, stats):
                 continue
             dx = (np.asarray(f(tau + hstep)) - np.asarray(f(tau - hstep))) / (2 * hstep)
             umax = max(float(np.abs(ux).max()), abs(ps[0]) * (1e-3 if flow else 1e-3 * size))
+            # rounding error of the difference quotient itself (positions carry ~eps |x|): a pathline so short that the
+            # quotient cannot resolve 0.1 % of the velocity says nothing about dx/dt (false alarm at max_strain = 1e-12)
+            if 4 * np.finfo(float).eps * max(float(np.abs(x).max()), 1e-300) / (2 * hstep) > 1e-3 * umax:
+                stats["ode_samples_unresolvable"] = stats.get("ode_samples_unresolvable", 0) + 1
+                continue
             worst = max(worst, float(np.abs(dx - ux).max()) / umax)
         stats["ode_residual_max"] = max(stats["ode_residual_max"], worst)
         if worst > 5e-2:
             fails.append(f"dx/dt differs from u(x) by {worst:.3e} (relative) along the pathline")
     return fails
+
+
+def stagnation_corner(spec, rec):
+    """signature of KF_STAGNATION: cell_2d, end point exactly at a corner of the cell (|h| = |v| = d/2), velocity there
+    below 1e-15 U, and solve_ivp returned after ONE step"""
+    flow, hl, vl, ps, mn, mx, p, ms, steps = spec
+    if flow != 1 or rec["t"] is None or len(rec["t"]) != 2:
+        return False
+    h, v = ordl(hl), ordl(vl)
+    if not (abs(p[h]) == ps[1] / 2 and abs(p[v]) == ps[1] / 2):
+        return False
+    return bool(np.abs(np.asarray(rec["u"](np.nan, p))).max() <= 1e-15 * abs(ps[0]))
+
+
+def boundary_specs():
+    """Deterministic boundary-value pathlines (every run, both tiers): end points ON faces / edges / corners of the box
+    (inflow and outflow side), degenerate boxes (one axis or all axes with min == max), strain limits 0 / tiny / so large
+    that the box decides / reached exactly AT a face, regular_steps 0 and 1.  [(name, spec)]"""
+    one = np.ones(3)
+    A = np.array
+    out = []
+    S = (0, "X", "Z", [1.0])                      # u_x = z
+    for name, p, ms, steps in (
+            ("shear: end point on the face z = max", [0.25, 0.5, 1.0], 0.5, None),
+            ("shear: end point on the inflow face", [-1.0, 0.5, 0.5], 0.5, None),
+            ("shear: end point on the outflow face", [1.0, 0.5, 0.5], 0.5, None),
+            ("shear: end point on an edge", [0.25, 1.0, 1.0], 0.5, 5),
+            ("shear: end point at a corner (outflow)", [1.0, 1.0, 1.0], 0.5, None),
+            ("shear: end point at a corner (inflow)", [-1.0, -1.0, 1.0], 0.5, None),
+            ("shear: end point on the line u = 0", [0.3, 0.0, 0.0], 0.5, None),
+            ("shear: strain limit 0", [0.25, 0.5, 0.5], 0.0, None),
+            ("shear: strain limit 0, resampled", [0.25, 0.5, 0.5], 0.0, 3),
+            ("shear: strain limit 1e-300", [0.25, 0.5, 0.5], 1e-300, None),
+            ("shear: strain limit 1e-12", [0.25, 0.5, 0.5], 1e-12, None),
+            ("shear: strain limit 1e9 (the box decides)", [0.25, 0.5, 0.5], 1e9, None),
+            ("shear: strain limit reached exactly at the inflow face", [0.25, 0.5, 0.5], 2.5, None),
+            ("shear: regular_steps = 0", [0.25, 0.5, 0.5], 0.5, 0),
+            ("shear: regular_steps = 1", [0.25, 0.5, 0.5], 0.5, 1)):
+        out.append((name, S + (-one, one, A(p), ms, steps)))
+    p = A([0.25, 0.5, 0.5])
+    out.append(("shear: box = the end point", S + (p.copy(), p.copy(), p.copy(), 0.5, None)))
+    out.append(("shear: flat box (dummy axis)", S + (A([-1, 0.5, -1.0]), A([1, 0.5, 1.0]), p.copy(), 0.5, None)))
+    out.append(("shear: flat box (gradient axis)", S + (A([-1, -1, 0.5]), A([1, 1, 0.5]), p.copy(), 0.5, 4)))
+    out.append(("shear: flat box (flow axis)", S + (A([0.25, -1, -1.0]), A([0.25, 1, 1.0]), p.copy(), 0.5, None)))
+    S2 = (0, "Z", "Y", [0.5])
+    out.append(("shear ZY: end point at a corner", S2 + (-one, one, A([1.0, -1.0, -1.0]), 1.0, None)))
+    C = (1, "X", "Z", [1.0, 2.0])
+    for name, p, ms, steps in (
+            ("cell: end point on a face", [1.0, 0.0, 0.3], 0.5, None),
+            ("cell: end point on the opposite face", [-0.4, 0.0, -1.0], 0.5, 10),
+            ("cell: end point at the centre (stagnation point)", [0.0, 0.0, 0.0], 0.5, None),
+            ("cell: end point at a corner (stagnation point on the box)", [1.0, 0.0, 1.0], 0.5, None),
+            ("cell: strain limit 0", [0.3, 0.0, 0.2], 0.0, None),
+            ("cell: strain limit 20 (several revolutions)", [0.3, 0.0, 0.2], 20.0, None)):
+        out.append((name, C + (-one, one, A(p), ms, steps)))
+    out.append(("cell: box smaller than the cell, end point on its corner",
+                C + (A([-0.5, -0.5, -0.5]), A([0.5, 0.5, 0.5]), A([0.5, 0.5, 0.5]), 0.5, None)))
+    K = (2, "X", "Z", [1.0])
+    mn, mx = A([0.0, -1.0, -2.0]), A([2.0, 1.0, 0.0])
+    for name, p, ms, steps in (
+            ("corner: end point on the surface", [0.5, 0.0, 0.0], 0.5, None),
+            ("corner: end point on the ridge axis", [0.0, 0.0, -0.5], 0.5, None),
+            ("corner: end point on the bottom face", [0.5, 0.0, -2.0], 0.5, None),
+            ("corner: end point on the far face", [2.0, 0.0, -0.5], 0.5, 7),
+            ("corner: end point at a lower corner of the box", [2.0, 1.0, -2.0], 0.5, None),
+            ("corner: strain limit 0", [0.5, 0.0, -0.5], 0.0, None),
+            ("corner: strain limit 1e9 (the box decides)", [0.5, 0.0, -0.5], 1e9, None)):
+        out.append((name, K + (mn.copy(), mx.copy(), A(p), ms, steps)))
+    out.append(("corner: 2D box in 3D (dummy axis min = max = 0), end point on the surface",
+                K + (A([0.0, 0.0, -2.0]), A([2.0, 0.0, 0.0]), A([0.75, 0.0, 0.0]), 1.0, None)))
+    return out
 
 
 def encode_spec(spec):
@@ -490,8 +870,30 @@ SEQ_FRACTIONS = [k / 8 for k in range(9)]
 CONTAINERS = ("array", "list", "list_all", "tuple_box", "float32", "int_box")
 
 
-def _flow_step(slot, flow, hl, vl, ps):
-    return {"op": "flow", "slot": slot, "flow": FLOWS[flow], "h": hl, "v": vl, "ps": [hx(a) for a in ps]}
+def _flow_step(slot, flow, hl, vl, ps, shared=False):
+    return {"op": "flow", "slot": slot, "flow": FLOWS[flow], "h": hl, "v": vl, "ps": [hx(a) for a in ps], "shared": bool(shared)}
+
+
+def share_buffers(pair):
+    """The `lambda t, x: L` idiom of user code: each callable writes its result into ONE persistent ndarray and hands
+    that same object back on every call.  Returns (velocity, gradient, intact) where intact() says whether the buffers
+    still hold what the callables last put there (nobody may write into what a callable returned)."""
+    state = {"modified": 0}
+
+    def wrap(f, shape):
+        buf, last = np.zeros(shape), [None]
+
+        def g(t, x):
+            if last[0] is not None and not np.array_equal(buf, last[0], equal_nan=True):
+                state["modified"] += 1
+            val = np.asarray(f(t, x), dtype=float)
+            buf[...] = val
+            last[0] = val.copy()
+            return buf
+        g.intact = lambda: last[0] is None or np.array_equal(buf, last[0], equal_nan=True)
+        return g
+    u, L = wrap(pair[0], 3), wrap(pair[1], (3, 3))
+    return u, L, (lambda: state["modified"] == 0 and u.intact() and L.intact())
 
 
 def _drop_step(slot):
@@ -629,6 +1031,18 @@ def gen_scenarios(rng, tier):
         for c in CONTAINERS:
             st.append(_path_step(0, p, mn, mx, 0.5, None, as_=c))
         out.append({"family": "containers_and_dtypes", "flow": FLOWS[flow], "steps": st})
+    # --- user callables that hand back ONE persistent ndarray on every call (the `lambda t, x: L` idiom): the results
+    #     must be those of the same flow returning fresh arrays (compared bit for bit with the reference run), and nobody
+    #     may write into the buffers
+    for flow in range(3):
+        h, v = PAIRS[int(rng.integers(6))]
+        mn, mx, p, ps = seq_domain(rng, flow, h, v)
+        ms = float(rng.choice([0.25, 0.5, 1.0]))
+        p2 = mn + (mx - mn) * (0.5 + 0.7 * ((p - mn) / (mx - mn) - 0.5))
+        st = [_flow_step(0, flow, LETTERS[h], LETTERS[v], ps, shared=True)]
+        for pp, m_, steps in ((p, ms, None), (p, ms / 2, None), (p2, ms, None), (p, ms, 6)):
+            st.append(_path_step(0, pp, mn, mx, m_, steps))
+        out.append({"family": "shared_buffers", "flow": FLOWS[flow], "steps": st})
     # --- boundary values (fixed): end points on a face / an edge / a corner of the box, on the line u = 0,
     #     a strain limit so small / so large that the other stopping criterion decides, one resampling step
     one = np.ones(3)
@@ -670,29 +1084,50 @@ def _digest(rec):
     return [hx(a) for a in ts], X
 
 
+SESSION_TIMEOUTS = [0]      # calls of this process that hit PATHLINE_TIMEOUT_S
+
+
 def run_scenario(sc):
     """Execute one scenario in THIS process; every returned pathline is checked against ITS OWN flow with
     the clauses of check_pathline.  Returns one dict per `path` step."""
-    slots, flowdef, shared, out = {}, {}, {}, []
+    slots, flowdef, shared, intact, out = {}, {}, {}, {}, []
     for st in sc["steps"]:
         if st["op"] == "flow":
             flowdef[st["slot"]] = st
-            slots[st["slot"]] = make_flow(FLOWS.index(st["flow"]), st["h"], st["v"], [unhx(a) for a in st["ps"]])
+            pair = make_flow(FLOWS.index(st["flow"]), st["h"], st["v"], [unhx(a) for a in st["ps"]])
+            intact.pop(st["slot"], None)
+            if st.get("shared"):
+                u, L, ok = share_buffers(pair)
+                pair, intact[st["slot"]] = (u, L), ok
+            slots[st["slot"]] = pair
         elif st["op"] == "drop":
             slots.pop(st["slot"], None)
+            intact.pop(st["slot"], None)
             gc.collect()
         else:
             spec = step_spec(flowdef[st["slot"]], st)
+            if SESSION_TIMEOUTS[0] >= 3:
+                # do not spend PATHLINE_TIMEOUT_S on each of the remaining calls (a changed tree whose pathlines do not terminate)
+                out.append({"exc": ["TimeoutError", "not run: three earlier calls of this session did not return"], "known": False,
+                            "known_sigs": [], "fails": ["get_pathline was not called: three earlier calls of this session did not return "
+                                                        f"within {PATHLINE_TIMEOUT_S} s"], "solver_called": False, "event_calls": 0,
+                            "ts": None, "X": None, "stats": {k: 0 for k in ("event_calls", "event_forward_jumps", "end_error_max",
+                                                                            "outside_max", "strain_ratio_max", "ode_residual_max")}})
+                continue
             rec = run_pathline(spec, callables=slots[st["slot"]], raw_args=_make_args(st, spec, shared))
+            SESSION_TIMEOUTS[0] += int(rec["exc"] is not None and rec["exc"][0] == "TimeoutError")
             stats = new_stats()
             try:
                 fails = check_pathline(chk_dummy, spec, rec, stats)
             except Exception as e:  # noqa: BLE001
                 fails = [f"the returned pathline cannot be evaluated: {type(e).__name__}: {str(e)[:160]}"]
+            if st["slot"] in intact and not intact[st["slot"]]():
+                fails.append("get_pathline wrote into an array returned by a user callable (the callables hand back one persistent "
+                             "ndarray each; its content changed between two calls of the callable)")
             known = is_known_pathline_failure(spec, rec, fails)
             if rec["exc"] is not None and not known:
                 fails.append(f"get_pathline raised {rec['exc'][0]}: {rec['exc'][1]}")
-            res = {"exc": rec["exc"], "known": bool(known), "fails": fails, "solver_called": rec["t"] is not None,
+            res = {"exc": rec["exc"], "known": bool(known), "known_sigs": rec.get("known", []), "fails": fails, "solver_called": rec["t"] is not None,
                    "event_calls": len(rec["calls"]), "ts": None, "X": None,
                    "stats": {k: stats[k] for k in ("event_calls", "event_forward_jumps", "end_error_max", "outside_max",
                                                    "strain_ratio_max", "ode_residual_max")}}
@@ -726,7 +1161,7 @@ def session_main(infile, outfile):
         json.dump({"results": res}, f)
 
 
-SESSION_ENV_KEEP = ("PATH", "HOME", "LANG", "LD_LIBRARY_PATH", "TMPDIR", "VIRTUAL_ENV", "NUMBA_CACHE_DIR", "PYDREX_REPO")
+SESSION_ENV_KEEP = ("PATH", "HOME", "LANG", "LD_LIBRARY_PATH", "TMPDIR", "VIRTUAL_ENV", "NUMBA_CACHE_DIR", "PYDREX_REPO", "C18_REPLAY_MODE")
 # A defect that depends on recycled object addresses depends on the allocator's state, and that state depends on
 # everything the interpreter allocated since start-up -- even on the size of the environment.  The session
 # interpreter therefore gets a fixed, minimal environment (check, search and replay then see the same heap
@@ -832,6 +1267,8 @@ def compare_sessions(chk, scenarios, results, stats, known_path_points):
             for f in r["fails"]:
                 bad.append((sc, f"{where}: {f}"))
             spec = step_spec(fd, st)
+            for sig in r.get("known_sigs", []):
+                stats.setdefault("known_signatures", {}).setdefault(sig, []).append(spec)
             if r["known"]:
                 seq["known_brentq_failures"] += 1
                 known_path_points.append(spec)
@@ -840,6 +1277,8 @@ def compare_sessions(chk, scenarios, results, stats, known_path_points):
             # ---- the oracle on its own
             key = solver_key(fd, st)
             if key not in refs:
+                if sum(1 for v in refs.values() if v["exc"] is not None and v["exc"][0] == "TimeoutError") >= 3:
+                    continue        # a tree whose pathlines do not terminate: already reported three times over
                 refs[key] = run_pathline(spec[:8] + (None,), module=fresh_pathlines_module())
             ref = refs[key]
             if ref["exc"] is not None or r["exc"] is not None:
@@ -935,7 +1374,7 @@ def classify_callable_failure(flow, fails):
     return None
 
 
-def search(chk, rng_seed, extra_specs=(), extra_scenarios=()):
+def search(chk, rng_seed, extra_specs=(), extra_scenarios=(), extra_rep=()):
     """Failing-input search: property oracle on the public API.  Known findings are only
     accepted when the failure has exactly their signature (shear: ratio 2 in the single
     non-zero entry; cell: only the two vertical-row entries / the trace)."""
@@ -958,6 +1397,23 @@ def search(chk, rng_seed, extra_specs=(), extra_scenarios=()):
                     found.append(({"call": f"pydrex.velocity.{FLOWS[flow]}", "horizontal": hl, "vertical": vl,
                                    "params": [hx(a) for a in ps], "x": [hx(a) for a in x]}, fails))
                     break
+            if len(found) >= 3:
+                return found
+    # the same point in other representations (the disagreeing cases first, then the structured sweep)
+    seen = set()
+    for c in list(extra_rep) + gen_representation_cases(np.random.default_rng([rng_seed, 1804]), "quick"):
+        flow, hl, vl, ps, x, rep, trep = c
+        key = (flow, hl, vl, tuple(ps), tuple(x), rep, trep)
+        if key in seen:
+            continue
+        seen.add(key)
+        fails = oracle_representation(flow, hl, vl, ps, x, rep, trep)
+        if fails:
+            found.append(({"call": f"pydrex.velocity.{FLOWS[flow]}", "horizontal": hl, "vertical": vl, "params": [hx(a) for a in ps],
+                           "x": [hx(a) for a in x], "x_float": [float(a) for a in x], "representation": rep, "time_representation": trep,
+                           "how": "apply both returned callables to the point x presented as `representation` (see present() in harness/props/c18.py) "
+                                  "and as a float64 ndarray; for integer representations also form the Jacobian of the velocity callable from the "
+                                  "six lattice neighbours x +- e_k in that representation"}, fails))
             if len(found) >= 3:
                 return found
     # the letter table
@@ -985,12 +1441,15 @@ def search(chk, rng_seed, extra_specs=(), extra_scenarios=()):
     # pathlines
     stats = new_stats()
     timeouts = 0
-    for spec in list(extra_specs) + pathline_specs(rng, "quick")[:24]:
+    for spec in list(extra_specs) + pathline_specs(rng, "quick")[:24] + [sp for _, sp in boundary_specs()]:
         if timeouts >= 2 and found:
             break
         rec = run_pathline(spec)
         timeouts += int(rec["exc"] is not None and rec["exc"][0] == "TimeoutError")
-        fails = check_pathline(chk_dummy, spec, rec, stats)
+        try:
+            fails = check_pathline(chk_dummy, spec, rec, stats)
+        except Exception as e:  # noqa: BLE001
+            fails = [f"the returned pathline cannot be evaluated: {type(e).__name__}: {str(e)[:160]}"]
         if rec["exc"] is not None and not is_known_pathline_failure(spec, rec, fails):
             fails.append(f"get_pathline raised {rec['exc'][0]}: {rec['exc'][1]}")
         if fails:
@@ -1036,8 +1495,28 @@ chk_dummy = _Dummy()
 def explained_by_finding(flow, hl, vl, ps, x, fail):
     """True iff this oracle failure is exactly the documented defect of shear / cell"""
     u, L = make_flow(flow, hl, vl, ps)
-    G = np.asarray(L(np.nan, np.asarray(x, dtype=float)))
+    x = np.asarray(x, dtype=float)
+    G = np.asarray(L(np.nan, x))
     h, v = ordl(hl), ordl(vl)
+    # the findings are about the GRADIENT callables; the velocity callable must be the documented field (at x and at
+    # two displaced points), otherwise the mismatch is something else
+    def field(y):
+        w = np.zeros(3)
+        if flow == 0:
+            w[h] = y[v] * ps[0]
+        else:
+            w[h] = ps[0] * math.cos(math.pi * y[h] / ps[1]) * math.sin(math.pi * y[v] / ps[1])
+            w[v] = -ps[0] * math.sin(math.pi * y[h] / ps[1]) * math.cos(math.pi * y[v] / ps[1])
+        return w
+    if flow in (0, 1):
+        s_ = max(float(np.abs(x).max()), 1e-300) if flow == 0 else abs(ps[1])
+        for dy in (np.zeros(3), 1e-3 * s_ * np.eye(3)[h], -1e-3 * s_ * np.eye(3)[v]):
+            try:
+                got = np.asarray(u(np.nan, x + dy))
+            except ValueError:
+                continue
+            if np.abs(got - field(x + dy)).max() > 1e-9 * abs(ps[0]) * (max(1.0, s_) if flow == 0 else 1.0):
+                return False
     if flow == 0:
         # the only non-zero entry is [h, v] and it equals 2 * strain_rate
         Z = G.copy(); Z[h, v] = 0
@@ -1079,19 +1558,62 @@ def witness_cell():
     return abs(G[2, 2] + math.pi / 2) < 1e-12 and abs(duz_dz) < 1e-6 and abs(np.trace(G) + math.pi / 2) < 1e-12
 
 
+def build_findings():
+    """Findings/C18_*.v are machine-checked refutations of the full statement for the two defective flows: they are
+    EXPECTED to stop compiling when a defect is repaired, so they are not among the obligations of `prove`; they are
+    built here (same Makefile, under the build lock) and the outcome is reported in the KNOWN-FINDING line."""
+    out = {}
+    with common.Lock():
+        for k, f in FINDING_FILES.items():
+            rc, _ = common.sh(f"cd {common.COQ} && timeout 600 make {f[:-2]}.vo", timeout=700)
+            out[k] = rc == 0
+    return out
+
+
+def refine_broken(chk, br):
+    """`common.build` extracts the first 12 lines of a coqc error; a unification error of an instance lemma is longer
+    and is then reported as "not built (a dependency failed)".  Recover file / line / proof name from make's output."""
+    import re
+    out = getattr(br, "make_out", "") or ""
+    for b in chk.cov.get("broken_obligations", []):
+        m = re.match(r"proof obligation file (\S+) does not compile", b.get("what", ""))
+        if not m or "dependency failed" not in str(b.get("detail", "")):
+            continue
+        k = out.find(f'File "./{m.group(1)}", line ')
+        if k >= 0:
+            txt = out[k:k + 1200]
+            head = txt.split("\n", 1)[0]
+            err = re.search(r"Error:[^\n]*(?:\n[^\n]*){0,3}", txt)
+            b["detail"] = (head + " | " + (err.group(0) if err else txt[len(head):300])).replace("\n", " ")[:700]
+
+
 def run(chk):
     quiet()
-    ok, br = proofs.prove(chk, FILES, PROP, groups=(GROUP,), gen_modules=("velocity",))
+    ok, br = proofs.prove(chk, FILES, PROP, groups=(GROUP,), gen_modules=GEN_MODULES)
+    refuted = build_findings()
+    chk.cov["findings_refutations_compile"] = refuted
+    refine_broken(chk, br)
     rng = np.random.default_rng(chk.seed)
     chk.cov["trusted_base"] = common.TRUSTED_COMMON + [
-        "VelProxy / UtilsProxy in translator/specs_velocity.py: np.full, a statically non-zero np.pi, and the replacement of "
-        "abs(np.linalg.eigvalsh((L+L^T)/2)).max() by the oracle parameter `eigmax` (the argument of eigvalsh is checked structurally)",
-        "hand-written Model_pathlines.v (public wrappers = generated letter table + generated kernels; _is_inside, _ivp_func, the stateful "
-        "terminal event as a state machine, time-stamp post-processing); tie H = this differential run, incl. a replay of every recorded event call",
+        "VelProxy / UtilsProxy in translator/specs_velocity.py: np.full, a statically non-zero np.pi, the replacement of "
+        "abs(np.linalg.eigvalsh((L+L^T)/2)).max() by the oracle parameter `eigmax` (the argument of eigvalsh is checked structurally); the "
+        "adapters that call the real public wrappers with the letters of two ordinals (XYZxyz) and apply the returned callables, and the "
+        "dispatchers that turn the call made by a functools.partial object into a call of the generated kernel for its index pair",
+        "translator/specs_pathlines.py (tie T of pydrex.pathlines): PathProxy (np.any of comparisons as one compound decision, np.zeros_like, "
+        "np.linspace as start + i*step with the end point stored exactly; NumPy's step == 0 special case not forked on), the user callables and "
+        "the eigenvalue oracle as function parameters of the generated code (applied as f(np.nan, point); anything else fails closed), the "
+        "solve_ivp stand-in that records the request / returns a symbolic path.t, access to the two `nonlocal` variables of the event closure "
+        "through its closure cells, the recording logger; emit_coq.py parameter kind `fun`",
+        "hand-written Model_pathlines.v (wrappers, _is_inside, _ivp_func, _ivp_jac, event state machine, request vector, time stamps): now tied "
+        "by the kernel-checked instance lemmas of Inst_velocity.v (all 36 letter pairs) and Inst_pathlines.v (dimensions 1-3, 1-3 solver time "
+        "stamps, regular_steps None/0-3) to code regenerated from the source; beyond those sizes (longer path.t) by this differential run, "
+        "incl. a replay of every recorded event call through BOTH the hand-written state machine and the generated closure",
         "oracles: numpy.linalg.eigvalsh (hypothesis: largest |eigenvalue| of (L+L^T)/2; eigenpair residuals checked at run time) and "
-        "scipy.integrate.solve_ivp (hypothesis used by the theorems: times start at 0 and strictly decrease; checked on every run). "
-        "dx/dt = u(x), staying in the box, ending at the requested point and strain <= 1.25 max are NOT proved: they are measured on real "
-        "get_pathline runs (see runtime_checked)",
+        "scipy.integrate.solve_ivp (hypotheses used by the theorems, all relative to the generated request and checked on every run: times start "
+        "at t_span[0] = 0 and strictly decrease, the dense output at the start reproduces y0 = final_location; the request actually made is "
+        "compared entry by entry with the generated request vector). dx/dt = u(x) along the numerical trajectory, its distance to the box and "
+        "the quadrature of the strain are NOT proved: they are measured on real get_pathline runs (see runtime_checked); the exact solution of "
+        "the posed problem is proved to stay in the box",
         "hand-written Model_pathline_session.v (get_pathline as a function of its arguments; a call history is the map of the single "
         "call; memoizing variants); tie H = the call-sequence run: every result of every sequence is compared with the extracted "
         "`timestamps` applied to solve_ivp's result for the same request computed on its own (new flow objects, private copy of the "
@@ -1109,8 +1631,13 @@ def run(chk):
         "units), the same sweeps with all flows alive (parameters and the six axis pairs), repeated identical requests (same argument objects, "
         "returned time stamps overwritten by the caller in between, regular_steps varied), interleaved requests of two live flows, one "
         "argument changed at a time with the ndarray objects reused and overwritten in place, lists / tuples / float32 / integer boxes, and "
-        "fixed boundary values (end point on a face / edge / corner / the line u = 0, strain limit 1e-9 and 1e6, regular_steps = 1); every "
+        "fixed boundary values (end point on a face / edge / corner / the line u = 0, strain limit 1e-9 and 1e6, regular_steps = 1), user "
+        "callables that hand back one persistent ndarray per call (results bit-identical to fresh arrays, buffers never written to); every "
         "returned pathline is checked against ITS OWN flow with the same clauses and against the same request computed on its own. "
+        "boundary-value pathlines (35, every run): end points on faces / edges / corners (inflow and outflow side, all three flows), boxes with "
+        "one or all axes degenerate, strain limits 0 / 1e-300 / 1e-12 / 1e9 / reached exactly at a face / 20 (several revolutions of the cell), "
+        "regular_steps 0 and 1, stagnation points. wrappers: letters that are no axis, mixed case, default edge length. every kernel case also "
+        "through the wrapper generated from the source, _is_inside / _ivp_func / _ivp_jac through the generated kernels. "
         "distinct = distinct inputs; non-trivial = some output non-zero")
     bad, path_bad, seq_bad = [], [], []
     stats = new_stats()
@@ -1121,9 +1648,15 @@ def run(chk):
         session = start_sessions_subprocess(scenarios)
         kc = gen_kernel_cases(rng, chk.tier)
         bad += compare_kernels(chk, kc, rtol=1e-10)
+        rep_cases = gen_representation_cases(np.random.default_rng([chk.seed, 1804]), chk.tier)
+        rep_bad = compare_representations(chk, rep_cases)
+        bad += rep_bad
         bad += compare_strain_increment(chk, rng, chk.tier)
         bad += compare_inside(chk, rng, chk.tier)
-        specs = [WITNESS_PATH] + pathline_specs(rng, chk.tier)
+        bnd = boundary_specs()
+        specs = [WITNESS_PATH] + [sp for _, sp in bnd] + pathline_specs(rng, chk.tier)
+        names = {id(sp): nm for nm, sp in bnd}
+        chk.cov.setdefault("histogram", {})["pathline:boundary_values"] = len(bnd)
         timeouts = 0
         for spec in specs:
             if timeouts >= 3:      # do not spend 20 s on each of the remaining pathlines
@@ -1132,8 +1665,19 @@ def run(chk):
             rec = run_pathline(spec)
             timeouts += int(rec["exc"] is not None and rec["exc"][0] == "TimeoutError")
             stats["pathlines"] += 1
-            fails = check_pathline(chk, spec, rec, stats)
-            chk.note_case(("pathline", spec[0], spec[1], spec[2], tuple(spec[3]), spec[6].tobytes(), spec[7], spec[8]), nontrivial=True)
+            try:
+                fails = check_pathline(chk, spec, rec, stats)
+            except Exception as e:  # noqa: BLE001
+                fails = [f"the returned pathline cannot be evaluated: {type(e).__name__}: {str(e)[:160]}"]
+            chk.note_case(("pathline", spec[0], spec[1], spec[2], tuple(spec[3]), spec[6].tobytes(), spec[4].tobytes(), spec[5].tobytes(),
+                           spec[7], spec[8]), nontrivial=True)
+            for sig in rec.get("known", []):
+                stats.setdefault("known_signatures", {}).setdefault(sig, []).append(spec)
+            if id(spec) in names:
+                stats.setdefault("boundary_values", {})[names[id(spec)]] = (
+                    "raised " + rec["exc"][0] if rec["exc"] is not None else
+                    (f"{len(rec['ts'])} time stamps from {float(rec['ts'][0]):.6g}" if len(rec["ts"]) else "no time stamps")
+                    + (f"; {'; '.join(f_[:80] for f_ in fails)}" if fails else ""))
             if rec["exc"] is None:
                 stats["completed"] += 1
             else:
@@ -1150,10 +1694,20 @@ def run(chk):
                                            "n_timestamps": int(len(rec["ts"])), "event_calls": len(rec["calls"])})
             for f in fails:
                 path_bad.append((spec, f))
-        seq_results = finish_sessions_subprocess(session)
-        seq_bad = compare_sessions(chk, scenarios, seq_results, stats, known_path_points)
-        chk.cov["traces_validated_against_impl"] = len(kc) + stats["pathlines"] + chk.cov["call_sequences"]["calls"]
+        try:
+            seq_results = finish_sessions_subprocess(session)
+        except RuntimeError as e:
+            # the session interpreter crashed / did not finish: a correspondence failure of the session model, not a
+            # machinery error -- the failing-input search below still runs
+            seq_results = None
+            seq_bad = [(scenarios[0], f"the call-sequence run did not complete: {str(e)[:300]}")]
+            chk.cov["call_sequences"] = {"calls": 0, "error": str(e)[:300]}
+        if seq_results is not None:
+            seq_bad = compare_sessions(chk, scenarios, seq_results, stats, known_path_points)
+        chk.cov["traces_validated_against_impl"] = len(kc) + len(rep_cases) + stats["pathlines"] + chk.cov["call_sequences"]["calls"]
     stats["strain_ratios"] = sorted(stats["strain_ratios"])[-8:]
+    sigs = stats.pop("known_signatures", {})
+    stats["known_boundary_signatures"] = {k: len(v) for k, v in sigs.items()}
     chk.cov["runtime_checked"] = {
         "note": "clauses about solve_ivp's trajectory, measured on real get_pathline runs (not proved)",
         **{k: v for k, v in stats.items()},
@@ -1167,11 +1721,11 @@ def run(chk):
         findings[KF_SHEAR] = ("simple_shear_2d: the gradient callable returns 2*strain_rate in entry [direction, plane] while the velocity "
                               "callable has d u/d x = strain_rate there (L = 2 x Jacobian; pinned by the doctest) -- witness simple_shear_2d('X','Z',1): "
                               "L[0,2] = 2, u([0,0,1])[0] - u(0)[0] = 1; Coq: Findings/C18_shear.v "
-                              + ("(compiles)" if FINDING_FILES["shear"] in br.built_vo else "(DOES NOT COMPILE)"))
+                              + ("(compiles)" if refuted["shear"] else "(DOES NOT COMPILE)"))
     if witness_cell():
         findings[KF_CELL] = ("cell_2d: gradient entries [v,h] and [v,v] are exchanged relative to the Jacobian of the velocity callable, trace = "
                              "-U*pi/d*cos(pi(h-v)/d) != 0 (pinned by the doctest) -- witness cell_2d('X','Z',1)(0,0,0): L[2,2] = -pi/2, d u_z/d z = 0; "
-                             "Coq: Findings/C18_cell.v " + ("(compiles)" if FINDING_FILES["cell"] in br.built_vo else "(DOES NOT COMPILE)"))
+                             "Coq: Findings/C18_cell.v " + ("(compiles)" if refuted["cell"] else "(DOES NOT COMPILE)"))
     if any(s is WITNESS_PATH for s in known_path_points):
         others = [s for s in known_path_points if s is not WITNESS_PATH]
         findings[KF_PATH] = ("get_pathline raises ValueError('f(a) and f(b) must have different signs') -- the terminal event is stateful "
@@ -1182,6 +1736,31 @@ def run(chk):
         # the same failure class without its recorded witness: not covered by the finding
         for s in known_path_points:
             path_bad.append((s, "get_pathline raised the brentq ValueError but the recorded witness of the known finding does not reproduce"))
+    # ---- the three boundary-value findings: accepted (by their exact signature, see check_pathline) only while the
+    #      recorded witness itself reproduces
+    witnesses = {nm: sp for nm, sp in (bnd if br.drivers.get(GROUP, 1) is None else [])}
+    texts = {
+        KF_ZERO: ("shear: strain limit 0",
+                  "get_pathline(max_strain=0) returns the time stamps [0., 0.] (not strictly increasing): the terminal event is 0 at t = 0, "
+                  "solve_ivp returns t = [0, 0] and the duplicate is handed on -- witness simple_shear_2d('X','Z',1), box [-1,1]^3, "
+                  "final_location (0.25, 0.5, 0.5), max_strain 0"),
+        KF_STEPS0: ("shear: regular_steps = 0",
+                    "get_pathline(regular_steps=0) returns ONE time stamp, the EARLIEST time of the pathline (np.linspace(a, b, 1) = [a]), so the "
+                    "time stamps do not end at 0 (Coq: C18_generated_timestamps) -- witness simple_shear_2d('X','Z',1), box [-1,1]^3, "
+                    "final_location (0.25, 0.5, 0.5), max_strain 0.5, regular_steps 0: [-0.5]"),
+        KF_STAGNATION: ("cell: end point at a corner (stagnation point on the box)",
+                        "for an end point at a corner of the Stokes cell (stagnation point ON the box, |u| ~ 1e-16 U) LSODA takes one step of "
+                        "~2e9 time units, the point drifts out of the box by ~1e-6, the event returns exactly 0 there and the pathline ends at "
+                        "that time: accumulated strain ~4.5e9 for max_strain 0.5 -- witness cell_2d('X','Z',1), box [-1,1]^3, "
+                        "final_location (1, 0, 1), max_strain 0.5"),
+    }
+    for key, (wname, text) in texts.items():
+        pts = sigs.get(key, [])
+        if any(sp is witnesses.get(wname) for sp in pts):
+            findings[key] = text + f"; same signature at {len(pts) - 1} other requests of this run"
+        else:
+            for sp in pts:
+                path_bad.append((sp, f"a request shows the signature of the known finding {key} but its recorded witness does not reproduce"))
     for k, text in findings.items():
         chk.known_finding(f"{k} :: {text}")
     chk.cov["known_findings_reproducing"] = sorted(findings)
@@ -1189,7 +1768,8 @@ def run(chk):
     if ok and not bad and not path_bad and not seq_bad:
         return
     found = search(chk, chk.seed + 1, extra_specs=[s for s, _ in path_bad if isinstance(s, tuple)][:6],
-                   extra_scenarios=[sc for sc, _ in seq_bad])
+                   extra_scenarios=[sc for sc, _ in seq_bad],
+                   extra_rep=[c for c, _ in bad if isinstance(c, tuple) and len(c) == 7 and isinstance(c[0], int)][:40])
     if found:
         for inp, fails in found[:3]:
             chk.replay({"kind": "property-violation", "input": inp, "observed": fails,
@@ -1208,6 +1788,7 @@ def run(chk):
 
 
 def replay(d):
+    os.environ["C18_REPLAY_MODE"] = "1"
     common.use_repo_source()
     quiet()
     if d.get("kind") != "property-violation":
@@ -1221,8 +1802,10 @@ def replay(d):
         spec = decode_spec(inp)
         rec = run_pathline(spec)
         fails = check_pathline(chk_dummy, spec, rec, new_stats()) if os.path.exists(os.path.join(common.EXTRACT, GROUP, "driver")) else []
-        if rec["exc"] is not None:
+        if rec["exc"] is not None and not is_known_pathline_failure(spec, rec, fails):
             fails.append(f"get_pathline raised {rec['exc'][0]}: {rec['exc'][1]}")
+        elif rec["exc"] is not None:
+            print("(get_pathline raises the brentq ValueError of the known finding C18:get_pathline:...:ValueError for this input)")
     elif inp["call"].endswith("to_indices2d"):
         import pydrex.geometry as geo
         h, v = inp["horizontal"], inp["vertical"]
@@ -1241,6 +1824,10 @@ def replay(d):
         got = float(utils.strain_increment(dt, Lm))
         if abs(got - want) > 1e-10 * max(1.0, want):
             fails.append(f"strain_increment = {got!r}, expected {want!r}")
+    elif "representation" in inp:
+        flow = FLOWS.index(inp["call"].split(".")[-1])
+        fails = oracle_representation(flow, inp["horizontal"], inp["vertical"], [unhx(a) for a in inp["params"]],
+                                      np.array([unhx(a) for a in inp["x"]]), inp["representation"], inp.get("time_representation", "nan"))
     else:
         flow = FLOWS.index(inp["call"].split(".")[-1])
         ps = [unhx(a) for a in inp["params"]]
